@@ -100,18 +100,30 @@ func canon(sb *strings.Builder, v cadence.Value) {
 		if ct != nil {
 			fields = getCompositeTypeFields(ct)
 		}
+		var attParts []string
+		first := true
 		for i, fv := range getCompositeFieldValues(v) {
-			if i > 0 {
+			if i < len(fields) {
+				if !first {
+					sb.WriteString(", ")
+				}
+				first = false
+				sb.WriteString(fields[i].Identifier + ": ")
+				canon(sb, fv)
+			} else if att, ok := fv.(cadence.Attachment); ok {
+				attParts = append(attParts, "$"+typeID(att.Type())+": "+Canon(fv))
+			} else {
+				attParts = append(attParts, "<extra>: "+Canon(fv))
+			}
+		}
+		// attachments have no declared order: render them sorted by type
+		sort.Strings(attParts)
+		for _, p := range attParts {
+			if !first {
 				sb.WriteString(", ")
 			}
-			if i < len(fields) {
-				sb.WriteString(fields[i].Identifier + ": ")
-			} else if att, ok := fv.(cadence.Attachment); ok {
-				sb.WriteString("$" + typeID(att.Type()) + ": ")
-			} else {
-				sb.WriteString("<extra>: ")
-			}
-			canon(sb, fv)
+			first = false
+			sb.WriteString(p)
 		}
 		sb.WriteString(")")
 	case cadence.NumberValue:
